@@ -42,11 +42,11 @@ Definition eff (out : list vrec) (real : res tabs) : res tabs :=
   match real with Err EAttr => read_file fix_guard false false out | _ => real end.
 Definition okb {A} (r : res A) (f : A -> bool) : bool := match r with Ok a => f a | Err _ => false end.
 Definition w_l2 (cf : cfg) (k : pstep) (out : list vrec) : bool :=
-  match phase_writer cf cur_rules (p_plan k) (p_in k) with Ok o' => all2 rec_sim out o' | Err _ => false end.
+  match phase_writer cf the_rules (p_plan k) (p_in k) with Ok o' => all2 rec_sim out o' | Err _ => false end.
 Definition l2_writer_PS k := w_l2 (cfP k) k (p_outPS k).
 Definition l2_writer_HP k := w_l2 (cfH k) k (p_outHP k).
-Definition l2_reader_PS k := tables_eqb (read_file cur_guard false false (p_outPS k)) (p_readPS k).
-Definition l2_reader_HP k := tables_eqb (read_file cur_guard false false (p_outHP k)) (p_readHP k).
+Definition l2_reader_PS k := tables_eqb (read_file the_guard false false (p_outPS k)) (p_readPS k).
+Definition l2_reader_HP k := tables_eqb (read_file the_guard false false (p_outHP k)) (p_readHP k).
 Definition readable_PS k := okb (p_readPS k) (fun _ => true).
 Definition readable_HP k := okb (p_readHP k) (fun _ => true).
 Definition decode_PS_ok k := okb (eff (p_outPS k) (p_readPS k)) (file_decodes (cfP k) (p_plan k)).
@@ -73,7 +73,7 @@ Definition fixed_ok k :=
 
 Record ustep := mkUStep { u_end_decl : bool; u_in : list vrec; u_out : list vrec; u_read : res tabs }.
 Definition l2_unphase k := all2 rec_sim (u_out k) (map (unphase_step (u_end_decl k)) (u_in k)).
-Definition l2_reader_u k := tables_eqb (read_file cur_guard false false (u_out k)) (u_read k).
+Definition l2_reader_u k := tables_eqb (read_file the_guard false false (u_out k)) (u_read k).
 Definition unphased_all k := okb (u_read k) (forallb (fun tb => forallb (fun rw =>
    forallb (fun p => match p with None => true | Some _ => false end) (row_phases rw)) (snd tb))).
 
@@ -358,9 +358,12 @@ def build_cases(ctx, results, inputs):
                 rb = read_back(os.path.join(d, o))
                 if fouts[tag].nul_bytes:
                     ctx.tally("outputs.with_nul_bytes")
-                    ctx.violation("writer:hp-unset-writes-nul-byte",
-                                  f"output of phase --tag {tag} contains {fouts[tag].nul_bytes} NUL byte(s); VcfReader: {rb[1:]} :: " + desc, replay)
+                    rb0 = rb
                     rb = read_back(fouts[tag].path)          # the copy with NUL replaced by '.'
+                if fouts[tag].nul_bytes and ctx.dist.get("outputs.with_nul_bytes", 0) <= 2:
+                    rb_show = rb0
+                    ctx.violation("writer:hp-unset-writes-nul-byte",
+                                  f"output of phase --tag {tag} contains {fouts[tag].nul_bytes} NUL byte(s); VcfReader: {rb_show[1:]} :: " + desc, replay)
                 rbs[tag] = rb
             if json.dumps(plans["PS"], sort_keys=True) != json.dumps(plans["HP"], sort_keys=True):
                 ctx.l2_disagreement("the two tags' runs did not compute the same phasing (trace differs)", [desc])
@@ -383,6 +386,8 @@ def build_cases(ctx, results, inputs):
                     ctx.tally("reinput.tool_failed")
                     known = "NoneType" in se and "split" in se
                     if known:
+                        ctx.tally("reinput.hp_none_crash")
+                    if known and ctx.dist.get("reinput.hp_none_crash", 0) <= 1:
                         ctx.violation("vcfreader:hp-none-crash",
                                       "`whatshap phase base.vcf phased.vcf` dies reading the phased VCF written by "
                                       f"phase --tag {tag} (HP value read back as (None,)): " + desc + " :: " + se[-200:], replay)
@@ -498,7 +503,7 @@ def run_histories(ctx, n):
 
 
 def run(ctx):
-    run_histories(ctx, ctx.n(60, 900))
+    run_histories(ctx, ctx.n(150, 3000))
 
 
 def replay(ctx, data):
